@@ -139,9 +139,11 @@ def qwp (pre : Path) : List El → List (Path × Q)
   | .grp n ks :: rest => qwp (pre ++ [n]) ks ++ qwp pre rest
   | .rep n ks :: rest => qwp (pre ++ [n]) ks ++ qwp pre rest
 
-/-- spec: the bind of a question carries `calculate` iff it has a calculation and NO trigger -/
+/-- spec: the bind of a question carries `calculate` iff it has a calculation and NO trigger (the text with the
+    yes/no → `true()`/`false()` conversion of `xml_bindings`); the nested set-node of a triggered calculation carries
+    the raw text — never both -/
 def expBind (x : Path × Q) : Bind :=
-  { path := x.1, calculate := if !x.2.trigger.isEmpty || x.2.calcu.isEmpty then none else some (sub x.1 x.2.calcu) }
+  { path := x.1, calculate := if !x.2.trigger.isEmpty || x.2.calcu.isEmpty then none else some (sub x.1 (bindConv x.2.calcu)) }
 
 theorem binds_eq : ∀ (els : List El) (pre : Path),
     binds sub pre els = (qwp pre els).flatMap fun x => if x.2.hasBind then [expBind sub x] else []
